@@ -34,7 +34,7 @@ CLAIMED = {
    note="Assumes the serialising controller's order space covers the coordinator's behaviours (argued in DESIGN 4.4); overlapping execution is sampled only."),
  "C03": dict(level="exploration", design="5 C03, 4.4",
    technique="schedule exploration (exhaustive DFS over completion orders for all digraphs on <=3 files x alias/duplicate/directory inputs, sampled beyond) with logical deadlock detection, execution-counter markers and trace counts",
-   text="Termination is decided logically at the coordinator's idle poll (no task outstanding, nothing can arrive) rather than by a clock; exactly-once completion is checked by per-command marker files and by counting first/second passes per file in the hook trace, under every completion order of the enumerated scope and for inputs that name the same file several ways.",
+   text="Termination is decided logically at the coordinator's idle poll (no task outstanding, nothing can arrive) rather than by a clock; exactly-once completion is checked by per-command marker files and by counting first/second passes per file in the hook trace, under every completion order of the enumerated scope and for inputs that name the same file or directory several ways.",
    note="A loop inside a worker task would only be caught by the orchestrator's 60 s isolated double replay (then reported as violation because the statement says the run terminates)."),
  "C05": dict(level="exploration", design="5 C05, 4.4",
    technique="schedule exploration: all 530 digraphs with self-loops on <=3 files x requested subsets x all completion orders (DFS), sampled 4-7 files; oracle = cycle reachability computed on the graph, reference model for bystanders, logical deadlock detection",
@@ -62,7 +62,7 @@ CLAIMED = {
    note="The may-process set comes from the input-resolution model that C11 validates."),
  "C11": dict(level="exploration", design="5 C11",
    technique="property-based testing against an independent input-resolution and naming model; created-output set and per-source execution counters",
-   text="Generated trees with the three source-name shapes, look-alikes and dependencies are processed with generated input lists (directories, either name, ./ ../ absolute, duplicates, missing, plain files) and recursion on/off, with base directory != cwd; the created outputs and per-source command counters must match the model's processed set exactly, missing targets must fail, clean must remove exactly the named sources' outputs.",
+   text="Generated trees with the three source-name shapes, look-alikes and dependencies are processed with generated input lists (directories, either name, ./ ../ absolute, duplicates, missing, plain files) and recursion on/off, with base directory != cwd; the created outputs and per-source command counters must match the model's processed set exactly, missing targets must fail, verify after a full build must succeed, create nothing and re-run the commands of exactly the dependency-closed set, clean must remove exactly the named sources' outputs.",
    note="No symlinks; relative base directories are exercised by C17's child processes."),
  "C04": dict(level="fault_enumeration", design="5 C04, 4.5",
    technique="fault injection by enumeration with real OS faults (occupied paths, invalid bytes, signal-killed commands, RLIMIT_FSIZE in child processes) x position x mode x controlled schedules; control twin per faulty case; CLI exit status",
@@ -70,7 +70,7 @@ CLAIMED = {
    note="ENOSPC-on-close is approximated by EFBIG-on-write; clean mode only gets directive faults (it is documented to ignore them)."),
  "C17": dict(level="exploration", design="5 C17",
    technique="property-based testing over (depth, base-vs-cwd, entry point, shell, command shape, exit status) with child processes for cwd/base combinations, an argv-dumping shell and the real binary",
-   text="The working directory, argv, TXTPP_FILE, stdout splicing, exit-status handling and the recursion guard of run directives are observed from inside the command (pwd / a dumper script) for sources at depth 0-3, with the base directory equal to, above, below or unrelated to the process cwd, through the library (in-process and in a child) and the binary. Found the base-relative working-directory defect (fixed).",
+   text="The working directory, argv, TXTPP_FILE, stdout splicing, exit-status handling and the recursion guard of run directives are observed from inside the command (pwd / a dumper script) for sources at depth 0-3, with the base directory equal to, above, below or unrelated to the process cwd, through the library (in-process and in a child) and the binary, alone or next to other sources of the same build that run the textually identical commands in other directories. Found the base-relative working-directory defect (fixed).",
    note="TXTPP_FILE: only 'designates the source' is asserted (README says absolute, a fixture pins base-relative)."),
  "C18": dict(level="exploration", design="5 C18",
    technique="robustness fuzzing: proptest-driven grammar-aware, byte-level and mutated-well-formed generators + coverage-guided libFuzzer campaign (thorough) on the same decoder; oracle = returns, no panic on any thread, no abort, no logical deadlock; Landlock-confined workers",
